@@ -207,6 +207,17 @@ def lazy_columns(ctx) -> None:
         sup = [st for st in fn.body if isinstance(st, ast.Expr) and core.src(st.value) == f'super().{mname}({var})']
         ctx.check(len(sup) == 1 and not cfg.cguards(sup[0], fn.node), 'R-SIBLING', fn, f'_Columns.{mname} continues the default descent unconditionally (super().{mname}({var}))', fn.node, key=f'{mname}:super')
     ctx.floor('C14.lazy-columns', n, 3)
+    # each clause of a query is visited on its own: the visit of one clause is guarded by the presence of that clause only -
+    # never nested in the loop over another clause (HAVING without GROUP BY would never be visited)
+    vq = prog.func(f'{cols.ref}.visit_query')
+    visits = [c for c in core.walk_local(vq.node) if isinstance(c, ast.Call) and isinstance(c.func, ast.Attribute) and c.func.attr == 'accept' and core.src(c.args[0] if c.args else None) == 'self']
+    ctx.floor('C14.lazy-columns.clauses', len(visits), 5)
+    for c in visits:
+        subject = core.src(c.func.value)
+        loops = [a for a in core.ancestors(c) if isinstance(a, (ast.For, ast.While))]
+        own_loop = all(any(isinstance(x, ast.Name) and x.id in core.names_in(lp.target) for x in ast.walk(c.func.value)) for lp in loops if isinstance(lp, ast.For))
+        foreign = [g for g in cfg.cguards(c, vq.node) if subject.split('.')[1] not in g[0]] if subject.startswith('source.') else []
+        ctx.check(len(loops) <= 1 and own_loop and not foreign, 'C14.lazy-columns', vq, f'`{subject}.accept(self)` is reached whenever its own clause is present (loops: {len(loops)}, foreign guards: {foreign})', c, key=f'visit_query:{subject}')
     ve = prog.func(f'{cols.ref}.visit_element')
     f = ve.param_names[1]
     col = (f'isinstance({f}, dsl.Column)', True)
@@ -494,7 +505,22 @@ def _helper_says_outer(prog, helper: core.FuncInfo, kind: str):
     return None
 
 
+def outer_kinds(ctx) -> None:
+    """What counts as an *outer* join is decided for every member of ``Join.Kind``: the helper that blocks row-filter push-down
+    answers True for each kind that preserves unmatched rows (everything but INNER and CROSS - LEFT, RIGHT and FULL) and
+    False for INNER and CROSS.  A positive list that forgets a member lets filters slip below that kind of join."""
+    prog = ctx.prog
+    kinds = [n for n, v in prog.cls(f'{FRAME}:Join.Kind').assigns.items() if n.isupper()]
+    ctx.floor('C14.outer-kinds', len(kinds), 4)
+    helper = prog.func(f'{PARSER}:Visitor._outer_joined')
+    for k in kinds:
+        says = _helper_says_outer(prog, helper, k)
+        want = k not in ('INNER', 'CROSS')
+        ctx.check(says is want, 'C14.outer-kinds', helper, f'a {k} join counts as {"outer" if want else "inner"} for the push-down decision (helper folds to {says})', helper.node, key=f'outer:{k}')
+
+
 def kind_guards(ctx) -> None:
+    outer_kinds(ctx)
     prog = ctx.prog
     tenv_ = types.TypeEnv(prog)
     resolver = calls.Resolver(prog)
